@@ -352,5 +352,5 @@ fn cubic_dbg(input: &[V]) -> Vec<V> {
 }
 
 fn main() {
-    main_with(&[("cubic", cubic), ("bbr", bbr), ("cubic_dbg", cubic_dbg)]);
+    main_with(&[("cubic", cubic), ("cubic_gate", cubic), ("bbr", bbr), ("cubic_dbg", cubic_dbg)]);
 }
